@@ -18,4 +18,6 @@ Cp11  == {1, 4, 5, 6, 7, 8, 9, 10, 11, 12, 22}                \* the 11 supporte
 Depths == 8..16
 Pow2(n) == 2^n
 Shr(x, s) == x \div Pow2(s)
+\* C09 budget in codes: max(1, floor(0.015 * (2^n - 1)))
+Budget09(n) == LET b == (15 * (Pow2(n) - 1)) \div 1000 IN IF b < 1 THEN 1 ELSE b
 =====================================================================================
